@@ -61,6 +61,10 @@ class CUnit:
         return f"<CUnit {self.symbol} {self.scale}>"
 
 
+_SI_NAMES = ("yocto", "zepto", "atto", "femto", "pico", "nano", "micro", "milli", "centi", "deci", "deca", "hecto",
+             "kilo", "mega", "giga", "tera", "peta", "exa", "zetta", "yotta")
+
+
 class Prefix:
     def __init__(self, var, name, abbr, exp):
         self.var, self.name, self.abbr, self.exp = var, name, abbr, exp
@@ -304,6 +308,7 @@ class Catalogue:
         self.file = "si_prefixes.py"
         env: Dict[str, object] = {}
         self.prefix_class = None
+        self.prefix_env = env
         self._import_from_package(m, env)
         for st in m.tree.body:
             self.cur = st
@@ -346,17 +351,34 @@ class Catalogue:
         fenv = dict(env)
         for nm in ("Decimal", "Fraction"):
             fenv.setdefault(nm, CBuiltin(nm))
+        self.prefix_factor_def = CFunc(fac, fenv, "SIPrefix.factor")
         bad = []
-        for p in self.prefixes.values():
+        self.prefix_factors = {}
+        # the members of the public list SI_PREFIXES are the SI prefixes the package registers (looked up by factor)
+        listed = env.get("SI_PREFIXES")
+        listed = [x for x in listed if isinstance(x, Prefix)] if isinstance(listed, (list, tuple)) else []
+        for p in list(self.prefixes.values()) + [x for x in listed if not any(x is y for y in self.prefixes.values())]:
             try:
-                v = self._call_func(CFunc(fac, fenv, "SIPrefix.factor"), [p], {})
+                v = self._call_func(self.prefix_factor_def, [p], {})
             except AnalysisError as e:
                 self.prefix_factor_ok, self.prefix_factor_detail = None, str(e)
                 return
-            if not _is_num(v) or isinstance(v, float) or _exact(v) != Fraction(10) ** p.exp:
-                bad.append(f"{p.name}: factor {v!r}, 10^{p.exp}")
+            self.prefix_factors[id(p)] = v
+            si = (p.var or "").lower() in _SI_NAMES or any(p is x for x in listed)
+            if si and (not _is_num(v) or isinstance(v, float) or not isinstance(p.exp, int) or _exact(v) != Fraction(10) ** p.exp):
+                bad.append(f"{p.name}: factor {v!r}" + (f", 10^{p.exp}" if isinstance(p.exp, int) else "") +
+                           (" (listed in SI_PREFIXES)" if any(p is x for x in listed) else ""))
         self.prefix_factor_ok = not bad
         self.prefix_factor_detail = "; ".join(bad[:3])
+
+    def _prefix_factor(self, p: "Prefix", node=None):
+        fd = getattr(self, "prefix_factor_def", None)
+        if fd is None:
+            return Fraction(10) ** p.exp
+        v = self._call_func(fd, [p], {}, node)
+        if not _is_num(v):
+            self.err(f"factor of prefix {p.name} is not a number: {v!r}", node)
+        return _exact(v)
 
     # ------------------------------------------------------------ predefined
     def _eval_predefined(self):
@@ -554,6 +576,11 @@ class Catalogue:
             key = self._eval(target.slice, env)
             if isinstance(obj, (list, dict)):
                 obj[self._key(key)] = v
+                return
+        if isinstance(target, ast.Attribute):
+            obj = self._eval(target.value, env)
+            if isinstance(obj, Prefix):
+                setattr(obj, target.attr, v)
                 return
         self.err(f"assignment target outside the catalogue language: {src_of(target)[:80]}", target)
 
@@ -760,7 +787,7 @@ class Catalogue:
             for a, b in ((l, r), (r, l)):
                 f = None
                 if isinstance(a, Prefix):
-                    f = Fraction(10) ** a.exp
+                    f = self._prefix_factor(a, node)
                 elif _is_num(a):
                     f = _exact(a)
                 if f is not None:
@@ -917,10 +944,10 @@ class Catalogue:
             if a == "qty_cls":
                 return obj.ctype
         if isinstance(obj, Prefix):
-            if a in ("name", "abbr", "exp"):
-                return getattr(obj, a)
             if a == "factor":
-                return Fraction(10) ** obj.exp
+                return self._prefix_factor(obj, n)
+            if a != "var" and a in obj.__dict__:
+                return getattr(obj, a)
         if isinstance(obj, CQty):
             if a == "amount":
                 return obj.amount
@@ -1339,14 +1366,21 @@ class Catalogue:
         if name == "print":
             return None
         if name == "SIPrefix":
-            vals = list(args)
-            names = ["name", "abbr", "exp"]
-            d = dict(zip(names, vals))
-            d.update(kwargs)
-            exp = d.get("exp")
-            if isinstance(exp, Fraction) and exp.denominator == 1:
-                exp = int(exp)
-            return Prefix(None, d.get("name"), d.get("abbr"), exp)
+            init = None
+            for s_ in (self.prefix_class.body if getattr(self, "prefix_class", None) is not None else ()):
+                if isinstance(s_, ast.FunctionDef) and s_.name == "__init__":
+                    init = s_
+            pf = Prefix(None, None, None, None)
+            if init is not None:
+                # the class's own constructor decides what a prefix holds (name, abbr, exp, ...)
+                self._call_func(CFunc(init, getattr(self, "prefix_env", {}), "SIPrefix.__init__"), [pf] + list(args), dict(kwargs), node)
+            else:
+                d = dict(zip(["name", "abbr", "exp"], list(args)))
+                d.update(kwargs)
+                pf.name, pf.abbr, pf.exp = d.get("name"), d.get("abbr"), d.get("exp")
+            if isinstance(pf.exp, Fraction) and pf.exp.denominator == 1:
+                pf.exp = int(pf.exp)
+            return pf
         self.err(f"call of {name} outside the catalogue language", node)
 
     # ------------------------------------------------------------ the checker's semantics of declarations
